@@ -153,15 +153,23 @@ def funnel(repo, rep):
         rep.ok("R-FUNNEL", "Epoch.Epoch.get_full_date", "day fraction split with bases 24 / 60 / 60, matching the 24 / 1440 / 86400 folding of set()")
     else:
         rep.violation("R-FUNNEL", "Epoch.Epoch.get_full_date", "split", "day-fraction split is not (int(24 r), int(60 r'), 60 (60 r' - min)) of r = day % 1")
-    # D3 copy branch
+    # D3 copy branch: under `isinstance(<first argument>, Epoch)` the stored JDE is read from the source's stored JDE and nothing
+    # else of the source is touched (the first argument may be named through a local alias)
     ok = False
+    va = fn.args.vararg.arg if fn.args.vararg else "args"
+    first = {"%s[0]" % va}
     for node in ast.walk(fn):
-        if isinstance(node, ast.If) and "isinstance(args[0], Epoch)" in norm_text(node.test):
+        if isinstance(node, ast.Assign) and len(node.targets) == 1 and isinstance(node.targets[0], ast.Name) \
+                and norm_text(node.value).replace(" ", "") in first:
+            first.add(node.targets[0].id)
+    for node in ast.walk(fn):
+        if isinstance(node, ast.If) and any(norm_text(node.test).replace(" ", "") == "isinstance(%s,Epoch)" % f for f in first):
             for s_ in node.body:
-                if isinstance(s_, ast.Assign) and norm_text(s_).replace(" ", "") == "self._jde=args[0]._jde":
+                if isinstance(s_, ast.Assign) and any(norm_text(s_).replace(" ", "") == "self._jde=%s._jde" % f for f in first):
                     ok = True
-            reads = {norm_text(x) for s_ in node.body for x in ast.walk(s_) if isinstance(x, ast.Attribute) and norm_text(x).startswith("args[0].")}
-            if reads - {"args[0]._jde"}:
+            reads = {norm_text(x) for s_ in node.body for x in ast.walk(s_) if isinstance(x, ast.Attribute)
+                     and any(norm_text(x).startswith(f + ".") for f in first)}
+            if reads - {f + "._jde" for f in first}:
                 ok = False
     if ok:
         rep.ok("R-FUNNEL", "Epoch.Epoch.set[copy]", "copy branch reads only args[0]._jde (a float: no shared state)")
